@@ -436,23 +436,19 @@ Qed.
 (* ------------------------------------------------------------------ 5. every operation can be driven to its return *)
 
 (* no path of the program is longer than n actions *)
-Fixpoint depth_le (n : nat) (p : prog) : Prop :=
-  match n with
-  | O => match p with Ret _ => True | _ => False end
-  | S m =>
-      match p with
-      | Ret _ => True
-      | Load _ k => forall o, depth_le m (k o)
-      | Reserve _ k => forall o, depth_le m (k o)
-      | LoadAndDelete _ k => forall o, depth_le m (k o)
-      | Delete _ k => depth_le m k
-      | CompareAndDelete _ _ k => forall b, depth_le m (k b)
-      | Lock _ k => depth_le m k
-      | Unlock _ k => depth_le m k
-      | ReadSF _ k => forall s, depth_le m (k s)
-      | WriteSF _ _ k => depth_le m k
-      | Fs _ k => forall r, depth_le m (k r)
-      end
+Fixpoint depth_le (p : prog) (n : nat) : Prop :=
+  match p with
+  | Ret _ => True
+  | Load _ k => match n with O => False | S m => forall o, depth_le (k o) m end
+  | Reserve _ k => match n with O => False | S m => forall o, depth_le (k o) m end
+  | LoadAndDelete _ k => match n with O => False | S m => forall o, depth_le (k o) m end
+  | Delete _ k => match n with O => False | S m => depth_le k m end
+  | CompareAndDelete _ _ k => match n with O => False | S m => forall b, depth_le (k b) m end
+  | Lock _ k => match n with O => False | S m => depth_le k m end
+  | Unlock _ k => match n with O => False | S m => depth_le k m end
+  | ReadSF _ k => match n with O => False | S m => forall s, depth_le (k s) m end
+  | WriteSF _ _ k => match n with O => False | S m => depth_le k m end
+  | Fs _ k => match n with O => False | S m => forall r, depth_le (k r) m end
   end.
 
 Definition DEPTH : nat := 16.
@@ -461,24 +457,25 @@ Ltac d_step :=
   match goal with
   | |- True => exact I
   | |- forall _, _ => intro
-  | |- depth_le _ (if ?b then _ else _) => destruct b
-  | |- depth_le _ (match ?x with _ => _ end) => destruct x
-  | |- depth_le _ _ => progress cbn
+  | |- depth_le (let _ := _ in _) _ => cbv zeta
+  | |- depth_le _ _ => progress cbn [depth_le ret unlock_opt]
+  | |- depth_le (if ?b then _ else _) _ => destruct b
+  | |- depth_le (match ?x with _ => _ end) _ => destruct x
   end.
 
-Lemma depth_prog_of : forall reqauth o, depth_le DEPTH (prog_of reqauth o).
+Lemma depth_prog_of : forall reqauth o, depth_le (prog_of reqauth o) DEPTH.
 Proof.
   intros reqauth o. unfold DEPTH.
   destruct o; cbn [prog_of];
     unfold prog_auth, prog_attach, prog_walk, prog_open, prog_create, prog_read, prog_write, prog_statlike,
-           prog_clunk, prog_remove, attach_rest, get_ref, new_ref, del_ref, unlock_opt, ret;
+           prog_clunk, prog_remove, attach_rest, get_ref, new_ref, del_ref;
     repeat d_step.
 Qed.
 
 (* weight of a thread: twice the remaining depth, plus one while it is not inside a FileSys call
    (entering a call keeps the program and clears that one) *)
 Definition wt_ok (th : thread) (w : nat) : Prop :=
-  exists n, depth_le n (t_prog th) /\ w = (2 * n + (if t_incall th then 0 else 1))%nat.
+  exists n, depth_le (t_prog th) n /\ w = (2 * n + (if t_incall th then 0 else 1))%nat.
 
 Definition total_ok (s : state) (W : nat) : Prop :=
   exists ws, Forall2 wt_ok (threads s) ws /\ (sum_list ws <= W)%nat.
@@ -511,16 +508,17 @@ Proof.
     eexists _, _. split; [reflexivity|]. split; [exists m; split; [apply Hd | reflexivity]|]. cbn. destruct (t_incall th); lia.
   - destruct n as [|m]; [destruct Hd|]. destruct (t_incall th) eqn:Hc; injection H as <-; cbn.
     + cbn [depth_le] in Hd. eexists _, _. split; [reflexivity|]. split; [exists m; split; [apply Hd | reflexivity]|]. cbn. lia.
-    + eexists _, _. split; [reflexivity|]. split; [exists (S m); split; [cbn [t_prog]; rewrite Hp; exact Hd | reflexivity]|]. cbn. lia.
+    + eexists _, _. split; [reflexivity|]. split; [exists (S m); split; [cbn [t_prog]; first [exact Hd | rewrite Hp; exact Hd] | reflexivity]|]. cbn. lia.
 Qed.
 
 Lemma sum_list_insert_lt : forall (ws : list nat) j w w',
   ws !! j = Some w -> (w' < w)%nat -> (sum_list (<[j := w']> ws) < sum_list ws)%nat.
 Proof.
   induction ws as [|x ws IH]; intros j w w' Hj Hlt; [rewrite lookup_nil in Hj; discriminate|].
-  destruct j as [|j]; cbn in *.
-  - injection Hj as ->. lia.
-  - specialize (IH _ _ _ Hj Hlt). lia.
+  destruct j as [|j].
+  - cbn in Hj. injection Hj as ->. change (<[0%nat := w']> (w :: ws)) with (w' :: ws). simpl. lia.
+  - cbn in Hj. change (<[S j := w']> (x :: ws)) with (x :: <[j := w']> ws). simpl.
+    specialize (IH _ _ _ Hj Hlt). lia.
 Qed.
 
 Lemma step_total : forall s j s' W,
@@ -575,7 +573,8 @@ Proof.
     + intros i th w Hi Hw. rewrite list_lookup_imap in Hi. rewrite list_lookup_fmap in Hw.
       destruct (ops !! i) as [os|]; cbn in Hi, Hw; [|discriminate]. injection Hi as <-. injection Hw as <-.
       exists DEPTH. split; [apply depth_prog_of | reflexivity].
-  - induction ops as [|x l IH]; cbn [map sum_list length] in *; lia.
+  - remember (2 * DEPTH + 1)%nat as c. clear Heqc.
+    induction ops as [|x l IH]; simpl; [lia|]. simpl in IH. rewrite Nat.mul_succ_r. lia.
 Qed.
 
 (* from EVERY reachable state the scheduler can drive every operation to its return *)
